@@ -10,8 +10,11 @@ centres of that category for every non-empty target subset;
 round-trip on the supplied channels.
 
 Tie: `artdrv fusion hist … # pred X SKIP` (model `predictSkip`), `fusion regr`
-(`predictRegression`, incl. the centre list indexed by channel number) and
-`fusion joinsplit` on exact classes and grid data."""
+(`predictRegression`), `fusion joinsplit` and `fusion restore` (`restoreRow`) on exact
+classes and grid data, for every subset of channels (suffixes or not) and every spelling.
+
+The two oracle signatures SIG_RESTORE / SIG_REGR are regression guards for the findings
+C11-a / C11-b of this slice, fixed in /repo aea0d0b / f0de10c."""
 from __future__ import annotations
 
 from fractions import Fraction
@@ -183,6 +186,8 @@ def run(ctx):
                               "target-channel centres of the predicted categories"), rp)
                 else:
                     cov.hit("regression-single" if len(tn) == 1 else "regression-multi-ok")
+                    if len(tn) > 1 and tn != list(range(len(tn))):
+                        cov.hit("regression-multi-targets-not-at-own-position-ok")
                 if not floats and not ambiguous_rows(f, Q, S):
                     W = [np.asarray(w, dtype=float) for w in f.W]
                     lines.append(f"fusion regr {chans_str(cls, sp, dims, gam)} {ints_str(Ssp)} {mat_q(W)} {mat_q(Q)}")
@@ -207,6 +212,16 @@ def run(ctx):
                 if not floats and i % 3 == 0:
                     lines.append(f"fusion joinsplit {ints_str(dims)} {ints_str(Ssp)} {mat_q([d_[0] for d_ in data])} {vec_q(Q[0])}")
                     metas.append(("js", i, (J[0], [b[0] for b in f.split_channel_data(Q, skip_channels=list(Ssp))]), rp))
+            # ---- tie: restore_data on a prepared row (this estimator has identity bounds)
+            if data and not floats:
+                try:
+                    with quiet():
+                        R0 = f.restore_data(Q[:1], skip_channels=list(Ssp))
+                    lines.append(f"fusion restore {chans_str(cls, sp, dims, gam)} {ints_str(Ssp)} {vec_q(Q[0])}")
+                    metas.append(("restore", i, [np.asarray(a, dtype=float)[0] for a in R0], rp))
+                except Exception as e:
+                    ctx.issue("violation", SIG_RESTORE if not (all(j in S for j in range(min(S), k)) if S else True)
+                              else f"FusionART.restore_data:{exc_enum(e)}", f"skip {Ssp}: raised {e!r}", rp)
             # ---- prepare / restore on raw data (fresh estimator: prepare_data fixes the column bounds)
             if data and r.random() < 0.5:
                 lo = [r.choice([0.0, -2.0, 1.0, 10.0]) for _ in range(k)]
@@ -243,6 +258,8 @@ def run(ctx):
                               dict(rp, raw=raw))
                 else:
                     cov.hit("prepare-restore-roundtrip" + ("-with-skip" if S else ""))
+                    if not suffix:
+                        cov.hit("prepare-restore-roundtrip-skip-not-suffix-ok")
         if hist_calls:
             hdr = f"fusion hist MT+ 0 - {chans_str(cls, sp, dims, gam)} # fit {mat_q(X)}"
             cs = " # ".join(f"pred {mat_q(Q)} {ints_str(Ssp)}" for Ssp, _ in hist_calls)
@@ -291,6 +308,15 @@ def run(ctx):
                 ctx.issue("diff", "fusion-regr:values", f"case {i}: impl {[a.tolist() for a in io]} model {body[:120]}", rp)
             else:
                 cov.hit("model-regr-ok")
+                cov.traces += 1
+        elif kind == "restore":
+            body = out[len("restore="):]
+            mm = None if body == "err" else parse_mat_q(body)
+            if mm is None or len(mm) != len(exp) or any(
+                    len(a) != len(b) or not all(close(float(u), v) for u, v in zip(a, b)) for a, b in zip(exp, mm)):
+                ctx.issue("diff", "fusion-restore", f"case {i}: impl {[list(a) for a in exp]} model {body[:120]}", rp)
+            else:
+                cov.hit("model-restore-ok")
                 cov.traces += 1
         else:
             J0, sp0 = exp
